@@ -67,6 +67,7 @@ Footprint == [
   c07        |-> {"upstreamhdr", "bearer", "htpasswd", "bypass", "revproxy", "store", "refresh"},   \* its bypassed requests are exempt by peer address
   c08        |-> {"emailrule", "htpasswd", "store", "errmode", "refresh"},
   c08file    |-> {"emailrule", "errmode", "refresh"},
+  lifetime   |-> {"store", "refresh", "cookiename"},
   c10        |-> {"store", "cookiename", "refresh"},
   c10size    |-> {"store", "cookiename", "cookieattrs", "refresh"},
   signout    |-> {"store", "logout", "refresh", "errmode", "cookiename"},
